@@ -37,8 +37,9 @@ Proof.
   pose proof (accumulate_fuel fixed f k file (r_lines st) (length file + 2) (r_pos st)
                 (match r_prepend st with [] => [] | p => [p] end) false []) as H.
   destruct (accumulate fixed (length file + 2) f k file (r_lines st) (r_pos st) _ false []) as [t p fn a| | |].
-  - destruct (cut f (concat t)); discriminate.
-  - discriminate.
+  - destruct (cut f (concat t)); try discriminate.
+    destruct (fixed && fn && negb (leftover_ok f _)); discriminate.
+  - destruct (fixed && negb (leftover_ok f _)); discriminate.
   - discriminate.
   - exfalso. apply H; [|reflexivity]. rewrite skipn_length. lia.
 Qed.
@@ -122,8 +123,10 @@ Proof.
   assert (Ht0 : length (concat temp0) = length (r_prepend st)).
   { unfold temp0. destruct (r_prepend st); [reflexivity|]. cbn [concat]. rewrite app_nil_r. reflexivity. }
   destruct (accumulate fixed (length file + 2) f k file (r_lines st) (r_pos st) temp0 false [])
-    as [temp pos' fin app| | |] eqn:Eacc; try discriminate.
+    as [temp pos' fin app|pend app| |] eqn:Eacc; try discriminate;
+    [|destruct (fixed && negb (leftover_ok f pend)); discriminate].
   destruct (cut f (concat temp)) as [size nl| | |] eqn:Ecut; try discriminate.
+  destruct (fixed && fin && negb (leftover_ok f (skipn size (concat temp)))); [discriminate|].
   injection H as _ _ _ <-.
   destruct fin; [discriminate Hnf|].
   destruct (accumulate_progress _ _ _ _ _ _ _ _ _ _ _ _ _ Eacc) as [Hprog Hlen].
